@@ -225,6 +225,11 @@ func (dec *fecDecoder) decode(in fecPacket) (recovered [][]byte) {
 	shardId := dec.getShardId(in.seqid())
 	shard, ok := dec.shardSet[shardId]
 	if !ok {
+		if len(dec.shardSet) == 0 {
+			// nothing is being collected (new decoder, or right after auto-tune): the discard
+			// horizon starts at this packet, wherever the peer's sequence ids currently are
+			dec.newestShardId = shardId
+		}
 		shard = newShardHeap()
 		dec.shardSet[shardId] = shard
 		atomic.AddUint64(&DefaultSnmp.FECShardSet, 1)
